@@ -36,6 +36,10 @@ def corpus():
         p.Sum((p.Product((x, p.Power(y, 2))), p.Call(f, (p.Subscript(a, x),)), p.If(p.LogicalAnd((x, y)), 1, p.Quotient(1, x)))),
         p.Sum((fxn.UBase(x, "t"), fxn.LegacyPair(x, 2))),
     ]
+    # the shipped legacy node types outside pymbolic.primitives
+    from pymbolic.polynomial import Polynomial
+    from pymbolic.rational import Rational
+    ex += [Rational(x, 3), Rational(p.Sum((x, 1)), 2), Polynomial(x, ((0, 1), (2, 3))), Polynomial(y, ((1, x),))]
     return ex
 
 
@@ -65,6 +69,7 @@ def main():
         recs = []
         for i, e in enumerate(ex):
             blobs = {}
+            perr = None
             cur = e
             for op in hist:
                 if op == "hash":
@@ -75,14 +80,20 @@ def main():
                 elif op == "eq":
                     cur == corpus()[i]
                 elif op == "roundtrip":
-                    cur = pickle.loads(pickle.dumps(cur))
+                    try:
+                        cur = pickle.loads(pickle.dumps(cur))
+                    except Exception as exc:  # noqa: BLE001
+                        perr = f"pickle round trip in the producer raised {type(exc).__name__}: {exc}"
             for proto in range(0, pickle.HIGHEST_PROTOCOL + 1):
-                blobs[proto] = pickle.dumps(cur, protocol=proto)
+                try:
+                    blobs[proto] = pickle.dumps(cur, protocol=proto)
+                except Exception as exc:  # noqa: BLE001
+                    perr = f"pickle.dumps(protocol={proto}) raised {type(exc).__name__}: {exc}"
             try:
                 hv = hash(cur)
             except TypeError:
                 hv = None
-            recs.append(dict(blobs=blobs, digest=digest(e), producer_hash=hv))
+            recs.append(dict(blobs=blobs, digest=digest(e), producer_hash=hv, producer_error=perr))
         comp = [dict(blob=pickle.dumps(c), args=args, value=c(*args)) for c, args in compiled_corpus()]
         pickle.dump(dict(recs=recs, compiled=comp, seed=os.environ.get("PYTHONHASHSEED"), debug=__debug__), open(out, "wb"))
         return 0
@@ -91,6 +102,8 @@ def main():
         ex = corpus()
         problems = []
         for i, (rec, local) in enumerate(zip(data["recs"], ex)):
+            if rec.get("producer_error"):
+                problems.append(f"expr#{i} {local!r}: {rec['producer_error']}")
             for proto, blob in rec["blobs"].items():
                 try:
                     got = pickle.loads(blob)
@@ -120,7 +133,7 @@ def main():
                 problems.append(f"compiled#{j}: {type(exc).__name__}: {exc}")
         for pr in problems:
             print("PROBLEM " + pr)
-        print(f"CHECKED {len(data['recs'])} expressions x {len(data['recs'][0]['blobs'])} protocols, producer seed={data['seed']} debug={data['debug']}, "
+        print(f"CHECKED {len(data['recs'])} expressions x {max(len(r['blobs']) for r in data['recs'])} protocols, producer seed={data['seed']} debug={data['debug']}, "
               f"consumer seed={os.environ.get('PYTHONHASHSEED')} debug={__debug__}")
         return 0
     return 2
